@@ -16,6 +16,7 @@ CLASS = ("class", "Acc", [("n", "int"), ("other", "Self?")], [("start", "int"), 
           ("peek", [], "int", [("return", ("field", V("self"), "n"))]),
           ("twice", [("by", "int")], "int", [("expr", ("mcall", V("self"), "add", [V("by")])), ("return", ("mcall", V("self"), "add", [V("by")]))]),
           ("me", [], "Self", [("return", V("self"))]),
+          ("spawn", [("by", "int")], "Self", [("return", ("call", "Self", [B("+", ("field", V("self"), "n"), V("by")), ("nil",)]))]),
           ("link", [("o", "Self")], None, [("setfield", V("self"), "other", V("o"))]),
           ("via", [("by", "int")], "int", [("return", ("mcall", ("get", ("field", V("self"), "other")), "add", [V("by")]))]),
           ("same", [("o", "Self")], "bool", [("return", ("is", V("o"), V("self")))]),
@@ -42,7 +43,7 @@ def history(rnd, length):
            ("assign", "reg", ("list", [V("a"), V("b")]), "[Acc...]")]
     for _ in range(length):
         k = rnd.choice(["add", "add", "peek", "field", "setfield", "is", "alias", "me", "link", "via", "new", "newchild", "elem", "twice", "same", "other_is",
-                        "chain", "chain", "opfield", "opfield_step", "peer_add", "box", "box"])
+                        "chain", "chain", "opfield", "opfield_step", "peer_add", "box", "box", "spawn"])
         x = V(rnd.choice(live))
         y = V(rnd.choice(live))
         if k == "box":
@@ -75,7 +76,7 @@ def history(rnd, length):
             out.append(("print", ("mcall", x, "same", [y])))
         elif k == "other_is":
             out.append(("print", ("is", ("field", x, "other"), y)))
-        elif k in ("alias", "me", "new", "newchild", "elem"):
+        elif k in ("alias", "me", "new", "newchild", "elem", "spawn"):
             fresh = [n for n in NAMES if n not in live]
             if not fresh:
                 out.append(("print", ("mcall", ("index", V("reg"), rnd.randint(0, 1)), "peek", [])))
@@ -85,6 +86,8 @@ def history(rnd, length):
                 e = x
             elif k == "me":
                 e = ("mcall", x, "me", [])
+            elif k == "spawn":
+                e = ("mcall", x, "spawn", [arg(rnd)])           # a method that constructs its own class: a distinct object
             elif k == "new":
                 e = ("call", "Acc", [arg(rnd), ("nil",)])
             elif k == "newchild":
